@@ -209,11 +209,15 @@ def explore_histories(inst, text, tail, crits, pc, twopl, tally, max_depth, max_
                        "%s raised %s (history %r)" % (op, out["message"], hist))
                 break
         key = tuple(last_solve_prefix(hist))
-        if hist[-1][0] == "solve":
-            probe_cache[key] = probes
         ref_probes = probe_cache.get(key)
         if bad is None and ref_probes is None:
-            _, _, _, _, ref_probes = build(text, tail, list(key), tl)
+            # reference text of each getter: the getter called FIRST after the
+            # solve, on its own fresh replay (so that one getter cannot hide a
+            # change it makes to another getter's text)
+            ref_probes = {}
+            for g in GETTERS:
+                _, outs, _, _, _ = build(text, tail, list(key) + [(g, None)], tl, probe=False)
+                ref_probes[g] = outs[-1]
             probe_cache[key] = ref_probes
         if bad is None:
             for g in GETTERS:
@@ -442,7 +446,11 @@ def replay(path):
     hist = [(h[0], h[1]) for h in p["history"]]
     tl = p.get("time_limit")
     S, outputs, alts, d, probes = build(p["file"], p["argv"], hist, tl)
-    _, _, _, _, ref_probes = build(p["file"], p["argv"], last_solve_prefix(hist), tl)
+    ref_probes = {}
+    for g in GETTERS:
+        _, outs, _, _, _ = build(p["file"], p["argv"], last_solve_prefix(hist) + [(g, None)], tl,
+                                 probe=False)
+        ref_probes[g] = outs[-1]
     print(p["argv"], "time_limit", tl)
     print(p["file"])
     print("history:", hist)
